@@ -15,7 +15,10 @@ package checks
 import (
 	"context"
 	"fmt"
+	"regexp"
+	"sort"
 	"strings"
+	"time"
 
 	"github.com/bmeg/grip/gdbi"
 	"github.com/bmeg/grip/gripql"
@@ -24,12 +27,13 @@ import (
 
 	"verif/harness/gmodel"
 	"verif/harness/memkv"
+	"verif/harness/qrun"
 	"verif/harness/vf"
 )
 
 func c16Atoms() []string {
 	long := strings.Repeat("x", 300)
-	return []string{"a", "A", "a\x00b", "\x00", "a|b", "e", "v", "g", "label", "gid", "_gid", " ", "", "é", "\xff", "a b", "_x", "-x", "x.y", "$x", "a/b", "g1__schema__", long, "0", "1e3", "a:b", "a\x00", "D", "f"}
+	return []string{"a", "A", "a\x00b", "\x00", "a|b", "e", "v", "g", "data", "label", "gid", "_gid", " ", "", "é", "\xff", "a b", "_x", "-x", "x.y", "$x", "a/b", "g1__schema__", long, "0", "1e3", "a:b", "a\x00", "D", "f"}
 }
 
 func c16Values() []any {
@@ -221,7 +225,51 @@ func (e *c16Env) check(run *vf.Run, ws []c16Write, w c16Write, label string) boo
 		run.Report(vf.Violation{Sig: fmt.Sprintf("%s|%s|%s|%s|%s|%s", w.Pos, e.via, w.Atom, acc, m.Comp, listDirection(m.Want, m.Got)),
 			Detail: fmt.Sprintf("%s: write of %s into graph %q was %s (err=%v); %s %s: expected %s, read back %s", label, w.Elem, w.Graph, acc, err, m.Comp, m.Item, m.Want, m.Got), Replay: rep})
 	}
+	// "through lookup, listing and traversal": a property whose name is a plain word is also read back by
+	// name through the traversal engine (names with path or template characters mean something else there)
+	if w.Pos == "property-name" && err == nil && c16PlainName.MatchString(c16FirstKey(w.Elem)) {
+		name := c16FirstKey(w.Elem)
+		switch name {
+		case "gid", "label", "from", "to":
+			// the traversal engine reads the element's own fields under these names (documented)
+		default:
+			if gi, gerr := e.db.Graph(w.Graph); gerr == nil {
+				var want []string
+				for id, v := range e.w[w.Graph].V {
+					if _, has := v.Data[name]; has {
+						want = append(want, id)
+					}
+				}
+				sort.Strings(want)
+				for qn, q := range map[string]*gripql.Query{"hasKey": gripql.V().HasKey(name), "has-eq": gripql.V().Has(gripql.Eq(name, 1.0))} {
+					res := qrun.Run(gi.Compiler(), q.Statements, 20*time.Second)
+					var got []string
+					for _, r := range res.Rows {
+						if m := c16GidRe.FindStringSubmatch(r); m != nil {
+							got = append(got, m[1])
+						}
+					}
+					sort.Strings(got)
+					if res.CompileErr != nil || res.TimedOut || strings.Join(got, ",") != strings.Join(want, ",") {
+						ok = false
+						run.Report(vf.Violation{Sig: fmt.Sprintf("%s|%s|%s|accepted|traversal-%s|different", w.Pos, e.via, w.Atom, qn),
+							Detail: fmt.Sprintf("%s: vertices of %q carrying the property %q: %v; V().%s on it returns %v (err=%v timeout=%v)", label, w.Graph, name, want, qn, got, res.CompileErr, res.TimedOut), Replay: rep})
+					}
+				}
+			}
+		}
+	}
 	return ok
+}
+
+var c16PlainName = regexp.MustCompile(`^[A-Za-z][A-Za-z0-9]*$`)
+var c16GidRe = regexp.MustCompile(`"gid":"([^"]*)"`)
+
+func c16FirstKey(e gmodel.Elem) string {
+	for k := range e.Data {
+		return k
+	}
+	return ""
 }
 
 // C16 runs the check.
